@@ -480,6 +480,7 @@ class Checker:
         self.reported: set = set()
         self.nviol = 0          # concrete failures reported as VIOLATION
         self.nnfi = 0           # correspondence differences without a failing input
+        self.pending_nfi: list = []
 
     # -- the property on one condition, one target: returns a list of (clause, variant, claimed, got)
     def oracle(self, c: Case, static: str, ma, mi, platform) -> list:
@@ -581,15 +582,24 @@ class Checker:
                 if m_static != static or m_rt != rt or m_mt != mt:
                     self.ndiff += 1
                     ctx.count("disagreements_checked")
-                    if not found and self.nnfi < 4:
-                        self.nnfi += 1
+                    if not found and len(self.pending_nfi) < 4:
+                        # held back until the whole enumeration is done: concrete failing inputs are reported first
                         side = "mypy (infer_condition_value)" if m_static != static else "run-time (eval)"
-                        ctx.violation(f"reachability correspondence broken on the {side} side for `{c.src}` target {ma}.{mi}/{platform}: "
-                                      f"real static {static} / model {m_static}; eval {rt} / model {m_rt}; mypy-time eval {mt} / model {m_mt}; "
-                                      "no statically decided (sub-)condition has a wrong value",
-                                      {"sub": "reach", "broken": f"correspondence {DRIVER} vs {side}", "src": c.src, "target": [ma, mi],
-                                       "platform": platform, "always_true": list(at), "always_false": list(af), "tokens": " ".join(c.tokens)},
-                                      found_input=False)
+                        self.pending_nfi.append((
+                            f"reachability correspondence broken on the {side} side for `{c.src}` target {ma}.{mi}/{platform}: "
+                            f"real static {static} / model {m_static}; eval {rt} / model {m_rt}; mypy-time eval {mt} / model {m_mt}; "
+                            "no statically decided (sub-)condition has a wrong value",
+                            {"sub": "reach", "broken": f"correspondence {DRIVER} vs {side}", "src": c.src, "target": [ma, mi],
+                             "platform": platform, "always_true": list(at), "always_false": list(af), "tokens": " ".join(c.tokens)}))
+
+    def flush_nfi(self) -> None:
+        """Correspondence differences for which the search found no failing input: all of them if nothing concrete
+        was found, one (as a pointer to the broken tie) otherwise."""
+        keep = self.pending_nfi[:1] if self.nviol else self.pending_nfi
+        for what, det in keep:
+            self.nnfi += 1
+            self.ctx.violation(what, det, found_input=False)
+        self.pending_nfi = []
 
 
 def block_flags(ctx: Ctx, real: Real, cases: list[Case], target, platform, native: bool) -> list[tuple[bool, bool]] | None:
@@ -761,6 +771,7 @@ def run(ctx: Ctx) -> None:
                                            "target": list(btarget), "platform": "linux", "native_parser": native}, found_input=False)
         ctx.count("traces_validated_against_impl", len(prepared_for_blocks))
         ctx.coverage["reach_block_disagreements" + ("_native" if native else "")] = bdiff
+    chk.flush_nfi()
     ctx.coverage["reach_disagreements"] = chk.ndiff
     ctx.coverage["reach_unparsable_sources_skipped"] = n_unparsable
     ctx.coverage["reach_wall_s"] = round(time.time() - t0, 1)
